@@ -113,3 +113,36 @@ Proof.
     + revert O. apply allpairs_impl.
       intros [[s1 e1] xs1] [[s2 e2] xs2] _ _ H. apply (K (s1, e1, xs1) (s2, e2, xs2)). exact H.
 Qed.
+
+(* sraRgnPopRect with flags = 0 (the only use in the library: first rectangle, top-left first):
+   the region splits into the popped rectangle and the rest *)
+Theorem pop_rect_sem r : WF r ->
+  match rgn_pop_rect r false false with
+  | None => r = []
+  | Some (rc, r') =>
+      WF r' /\
+      (let '(x1, y1, x2, y2) := rc in x1 < x2 /\ y1 < y2) /\
+      forall x y, rgn_mem r x y = rect_mem rc x y || rgn_mem r' x y
+  end.
+Proof.
+  intros [lo W]. unfold rgn_pop_rect.
+  destruct r as [|[[y1 y2] xs] rest]; [reflexivity|].
+  cbn in W. destruct W as (H1 & H2 & [[lox Wx] Nx] & H4).
+  destruct xs as [|[[x1 x2] u] xrest]; [congruence|].
+  cbn in Wx. destruct Wx as (X1 & X2 & _ & X4).
+  split; [|split; [split; assumption|]].
+  - destruct xrest as [|sp xr].
+    + exists y2. exact H4.
+    + exists lo. cbn. repeat split; try lia; try assumption; try discriminate.
+      exists x2. exact X4.
+  - intros x y. unfold rgn_mem, rect_mem. cbn [lookup]. rewrite <- andb_assoc.
+    destruct ((y1 <=? y) && (y <? y2)) eqn:Ey.
+    + rewrite andb_true_r.
+      assert (Hrest : lookup rest y = None) by (apply (lookup_below _ Py y2 rest y H4); lia).
+      destruct xrest as [|sp xr].
+      * rewrite Hrest. unfold x_mem. cbn [lookup]. destruct ((x1 <=? x) && (x <? x2)); reflexivity.
+      * cbn [lookup]. rewrite Ey. unfold x_mem. cbn [lookup].
+        destruct ((x1 <=? x) && (x <? x2)); reflexivity.
+    + rewrite andb_false_r. cbn [orb].
+      destruct xrest as [|sp xr]; [reflexivity|]. cbn [lookup]. rewrite Ey. reflexivity.
+Qed.
